@@ -357,7 +357,7 @@ Proof.
   destruct (_continue_backlog mm1 (m_remote m)) as [mm2 o2]. cbn [fst mm] in *. exists xs2. exact H2.
 Qed.
 
-Lemma WF_handler_respond s xs h code last obs : WFm (mm s) xs -> exists xs', WFm (mm (fst (handler_respond s h code last obs))) xs'.
+Lemma WF_handler_respond s xs h code last obs lg : WFm (mm s) xs -> exists xs', WFm (mm (fst (handler_respond s h code last obs lg))) xs'.
 Proof.
   intro H. unfold handler_respond. destruct (incoming (tm s)) as [l|]; [|exists xs; exact H].
   destruct (find (fun i => i_h i =? h) l) as [i|]; [|exists xs; exact H].
@@ -490,6 +490,11 @@ Proof.
     match goal with |- context [send_message ?a ?b ?c ?d ?e ?f ?g ?h] => destruct (WF_send_message a xs b c d e f g h H) as (xs' & H'); destruct (send_message a b c d e f g h) end.
     cbn [fst mm] in *. exists xs'. exact H'.
   - destruct (client_cancel (tm s) q). exists xs. exact H.
+  - exists xs. exact H.
+  - destruct (find _ (resolving (tm s))) as [[[[q0 r] mt] ob]|]; [|exists xs; exact H].
+    unfold tm_request. cbn [tm mm]. destruct (outgoing _); [|exists xs; exact H]. destruct (next_token _) as [tm1 tok].
+    match goal with |- context [send_message ?a ?b ?c ?d ?e ?f ?g ?h] => destruct (WF_send_message a xs b c d e f g h H) as (xs' & H'); destruct (send_message a b c d e f g h) end.
+    cbn [fst mm] in *. exists xs'. exact H'.
   - apply WF_handler_respond with xs; exact H.
   - apply WF_handler_respond with xs; exact H.
   - apply WF_dispatch_error with xs; exact H.
